@@ -32,3 +32,7 @@ G = ['string values: the quoted-string writer of save_option_file composed with 
      'numeric values (strtol / to_string of libc), custom types, set keywords, macro-* words, file_ext mappings, include directives: NOT covered',
      'save_option_file writes each option through these to_string functions and load_option_file reads through convert_string (process_option_line): not under contract',
      '"byte-identical formatting under the reloaded config" follows only if every option value is restored: NOT covered beyond enumerated values']
+
+sys.path.insert(0, os.path.join(os.path.dirname(os.path.abspath(__file__)), '..', '..', 'tools'))
+import replay_lib  # noqa: E402
+REPLAY = replay_lib.make_replay(replay_lib.scenario_enum_roundtrip)
